@@ -65,7 +65,7 @@ theorem C14_not_to_others (env : Env) (ops : List Op) (r : Req) (o : Out) (c : C
 distributed connection (`distributed_peers`), and once the `CLOSED` event of connection `c` has been handled
 nothing is written to `c` any more, whatever happens afterwards to the carrier. (The window between the
 remote close and the `CLOSED` event is covered in the code by `send_message` refusing to write on a closing
-connection, connection.py:482-488 — exercised by the harness, not modelled.) -/
+connection, connection.py:480-486 — not modelled, and not observable from the remote end.) -/
 theorem C14_no_send_to_closing (env : Env) (ops : List Op) (r : Req) (o : Out) (c : ConnId) :
     (o ∈ handle env (run ops) r → o.toConn c = true → c ∈ (run ops).liveConns) ∧
     (o ∈ handle env (run (ops ++ [.closed c])) r → o.toConn c = false) := by
